@@ -109,6 +109,8 @@ def forms():
     out.append(("repeat.zero-len", ["repeat", T(1), I(0)], [1]))
     out.append(("eq.lit-arrays", ["bin", "==", ["array", T(1), T(2)], ["array", T(3)]], [1, 2, 3]))
     out.append(("array-of-array.at", ["at", ["at", ["array", ["array", T(1), T(2)], ["array", T(3)]], I(1)], I(0)], [1, 2, 3]))
+    # STATEMENT-level forms live in stm_forms; here: mixed constant / computed operands keep source order
+    out.append(("array.const-then-computed", ["array", I(9), T(1), I(8), T(2)], [1, 2]))
     # struct literals whose field names are not in alphabetical order: source order, not name order
     out.append(("struct.names-unordered", ["struct", ["zero", T(1)], ["one", T(2)], ["two", T(3)]], [1, 2, 3]))
     out.append(("struct.names-reversed", ["struct", ["c", T(1)], ["b", T(2)], ["a", T(3)]], [1, 2, 3]))
@@ -158,6 +160,12 @@ def stm_forms():
             [["aval", [mk(ai, cnd) for cnd in cands], blk(E(T(100 + ai)))] for ai, cands in enumerate(arms)] + \
             [["aother", blk(E(T(199)))]]
         out.append((f"match-value.{scrut}", [["set", "r", m]], exp))
+    # candidates of ONE arm mixing computed values and constants (a literal, a name bound to a constant): source order
+    out.append(("match-value.mixed-candidates.lit", [["set", "r", ["match", T(3), ["aval", [T(1), I(3), T(2)], blk(E(T(100)))], ["aother", blk(E(T(199)))]]]], [3, 1, 100]))
+    out.append(("match-value.mixed-candidates.const-name", [["set", "k", ["expr", I(3)]],
+                ["set", "r", ["match", T(3), ["aval", [T(1), V("k"), T(2)], blk(E(T(100)))], ["aother", blk(E(T(199)))]]]], [3, 1, 100]))
+    out.append(("match-value.mixed-candidates.none", [["set", "r", ["match", T(7), ["aval", [I(3), T(1), I(4), T(2)], blk(E(T(100)))], ["aother", blk(E(T(199)))]]]], [7, 1, 2, 199]))
+    out.append(("match-value.mixed-candidates.first-computed-hits", [["set", "r", ["match", T(1), ["aval", [T(1), I(3), T(2)], blk(E(T(100)))], ["aother", blk(E(T(199)))]]]], [1, 1, 100]))
     for v, exp in ((I(5), [1, 2]), (S("s"), [1, 3])):
         out.append((f"ifset.{v[1][0]}", [["set", "u", ["expr", ["at", ["array", I(5), S("s")], I(0 if v[1][0] == "i" else 1)]]],
                                         ["set", "r", ["ifset", "w", "int", ["tacc", ["tuple", T(1), V("u")], 1], blk(E(T(2))), blk(E(T(3)))]]], exp))
